@@ -473,6 +473,46 @@ impl World {
                 self.sleep_ms(ms).await;
                 core.log(json!({"ev": "Quiesce", "ms": ms}));
             }
+            "compat_case" => {
+                // writer (participant 0) and reader (participant 1) with the QoS of an enumerated
+                // Compat.tla case and the given partition lists; report the matched counts of both sides
+                let (wq, mut pq, rq, mut sq) = crate::compat::qos_from_case(&st["q"]);
+                let names = |v: &Value| -> Vec<String> {
+                    v.as_array().map(|a| a.iter().map(|n| n.as_array().map(|cs| cs.iter().map(|c| c.as_str().unwrap_or("")).collect::<String>()).unwrap_or_default()).collect()).unwrap_or_default()
+                };
+                pq.partition.name = names(&st["pp"]);
+                sq.partition.name = names(&st["sp"]);
+                let publisher = self.parts[0].p.create_publisher(QosKind::Specific(pq), NO_LISTENER, NO_STATUS).await;
+                let subscriber = self.parts[1].p.create_subscriber(QosKind::Specific(sq), NO_LISTENER, NO_STATUS).await;
+                let (Ok(publisher), Ok(subscriber)) = (publisher, subscriber) else {
+                    core.log(json!({"ev": "CompatResult", "err": "publisher/subscriber creation failed"}));
+                    return;
+                };
+                let w = publisher.create_datawriter::<KeyedData>(&self.parts[0].topic, QosKind::Specific(wq), NO_LISTENER, NO_STATUS).await;
+                let r = subscriber.create_datareader::<KeyedData>(&self.parts[1].topic, QosKind::Specific(rq), NO_LISTENER, NO_STATUS).await;
+                match (w, r) {
+                    (Ok(w), Ok(r)) => {
+                        self.sleep_ms(st["ms"].as_i64().unwrap_or(400)).await;
+                        let wm = w.get_matched_subscriptions().await.map(|v| v.len() as i64).unwrap_or(-1);
+                        let rm = r.get_matched_publications().await.map(|v| v.len() as i64).unwrap_or(-1);
+                        core.log(json!({"ev": "CompatResult", "w_matched": wm, "r_matched": rm, "id": st["id"]}));
+                        let _ = publisher.delete_datawriter(&w).await;
+                        let _ = subscriber.delete_datareader(&r).await;
+                    }
+                    (w, r) => {
+                        core.log(json!({"ev": "CompatResult", "skip": format!("create: writer {} reader {}", res_name(&w), res_name(&r)), "id": st["id"]}));
+                        if let Ok(w) = w {
+                            let _ = publisher.delete_datawriter(&w).await;
+                        }
+                        if let Ok(r) = r {
+                            let _ = subscriber.delete_datareader(&r).await;
+                        }
+                    }
+                }
+                let _ = self.parts[0].p.delete_publisher(&publisher).await;
+                let _ = self.parts[1].p.delete_subscriber(&subscriber).await;
+                self.sleep_ms(50).await;
+            }
             "final" => {
                 core.log(json!({"ev": "Final"}));
             }
